@@ -17,11 +17,11 @@ CONFIG = {
     ],
     "mult_search": 3,
     "refuted": [],
-    "partial": ["C15_roundtrip_partial: distinct names / importable formats / no dangling reference of a reflected set are hypotheses (checked on every reflected set of the stream, not yet derived from reflect D fs = Ok S)"],
+    "partial": ["C15_reflected_roundtrip holds for every descriptor set satisfying wf_desc (enums non-empty; split names of messages / enums / real oneofs pairwise distinct; JSON names per message distinct); C15_full_statement without wf_desc is not claimed (split-name collisions make the reader itself panic: known C18 finding)"],
 }
 
 MANIFEST = {
     "text": "Theorems over a table-driven Gallina model of the schema export (ToJ5Root / ToJ5Field) and import (PackageSetFromSourceAPI): field-by-field and root-by-root inverse lemmas (every rule, list rule, ext, flatten flag, entity marker, any-membership, enum prefix / option info / info fields), lifted over the reference environment (every schema found again under its name exporting to the same form, nothing added, every reference resolved) and independence of the map iteration order of buildSchemas.",
-    "note": "Partial: the lift to sets assumes distinct names, importable formats and closedness of the reflected set (checked per case, not proved from the reader model). Trusted: Coq kernel; translator; harness.",
+    "note": "Proved for every well-formed descriptor set (wf_desc) and every successful reflection of it: export, re-import, re-export gives exactly the same form with every reference resolved (C15_reflected_roundtrip, composing the reader model's invariant with the table-driven export/import model); field-by-field and root-by-root inverse lemmas; independence of the buildSchemas iteration order. Not claimed without wf_desc (split-name collisions). Inline field schemas are outside the model. Trusted: Coq kernel; translator (copy tables); harness.",
     "technique": "Rocq/Coq proof over a model that computes with copy tables regenerated from the Go composite literals + in-Coq differential correspondence (export, re-import, second export) in crash-isolated workers",
 }
